@@ -649,6 +649,12 @@ class Engine:
     def __init__(self, query_timeout_ms=10000, deadline=None, max_paths=20000):
         self.solver = z3.Solver()
         self.solver.set("timeout", query_timeout_ms)
+        import os
+
+        zs = int(os.environ.get("VERIF_Z3_SEED", "0") or 0)
+        if zs:  # different seeds give different models (used to shake out model-dependent flaws of harnesses)
+            self.solver.set("random_seed", zs)
+            z3.set_param("smt.random_seed", zs)
         self.deadline = deadline
         self.max_paths = max_paths
         self.queries = 0
